@@ -81,6 +81,17 @@ int  vs_statics_initialised(void);
 void vs_dump_statics(FILE* f);
 uint64_t vs_static_hash_at(int i);           // 0 = not initialised            // name + byte hash per initialised static
 
+// ---- raw memory helpers (no libc call, invisible to the race detector) --------------
+void vs_mem_copy(void* dst, const void* src, unsigned long n);
+long vs_mem_diff(const void* a, const void* b, unsigned long n, long skip_lo, long skip_hi);  // first differing byte outside [skip_lo,skip_hi) or -1
+uint64_t vs_mem_hash(const void* p, unsigned long n);
+void vs_busy_clear(void);
+void vs_busy_add(long lo, long hi);      // byte range of the arena the current operation may legitimately touch
+int  vs_busy_test(long off);
+void vs_flag_set(int v);
+int  vs_flag_get(void);
+void vs_preempt_in(uint64_t n);          // calling simulated thread yields at its n-th function entry from now
+
 // ---- rand seam -------------------------------------------------------------
 void vs_rand_mode(int seeded, uint64_t seed);
 uint64_t vs_rand_draws(void);
